@@ -472,6 +472,10 @@ func minInt(a, b int) int {
 }
 
 func runC15(c *mon.Case) {
+	if c.Idx%24 == 11 {
+		runC15Websocket(c)
+		return
+	}
 	if c.Idx%12 == 2 {
 		runC15Reuse(c)
 		return
